@@ -42,7 +42,8 @@ bool overlaps(const Oct &a, const Oct &b, double tol) {
     return m.xa - m.xi > tol && m.ya - m.yi > tol && m.sa - m.si > 2 * tol && m.da - m.di > 2 * tol;
 }
 
-struct Nb { int gid; float ox, oy, sx, sy; bool same; };
+struct Mx { int axis; float vmin, vmax; };
+struct Nb { int gid; float ox, oy, sx, sy; bool same; std::vector<Mx> mx; };
 struct Rec {
     FILE *out = 0; const GlyphCache *gc = 0; long caseNo = 0; std::string id;
     bool open = false; float b[15]; std::vector<Nb> nb;
@@ -64,7 +65,9 @@ void box8(std::string &o, const BBox &b, const SlantBox &s, double px, double py
 void fsink(int ev, int n, const float *v) {
     if (!R.out) return;
     if (ev == 10 && n >= 15) { memcpy(R.b, v, sizeof R.b); R.nb.clear(); R.open = true; return; }
-    if (ev == 11 && n >= 6 && R.open) { R.nb.push_back(Nb{int(v[0]), v[1], v[2], v[3], v[4], v[5] != 0}); return; }
+    if (ev == 11 && n >= 6 && R.open) { R.nb.push_back(Nb{int(v[0]), v[1], v[2], v[3], v[4], v[5] != 0, {}}); return; }
+    // per-axis overlap range of the bounding octabox of the neighbour just handed over (not of an exclusion glyph)
+    if (ev == 15 && n >= 8 && R.open && !R.nb.empty() && v[7] == 0 && std::fabs(v[1]) < 60000 && std::fabs(v[2]) < 60000) { R.nb.back().mx.push_back(Mx{int(v[0]), v[1], v[2]}); return; }
     if (ev == 12 && n >= 5 && R.open) {
         R.open = false; ++R.fixes;
         const float *b = R.b;
@@ -95,6 +98,8 @@ void fsink(int ev, int n, const float *v) {
             o += ",\"sub\":[";
             const int ns = R.gc->numSubBounds(q.gid);
             for (int j = 0; j < ns; ++j) { if (j) o += ","; box8(o, R.gc->getSubBoundingBBox(q.gid, j), R.gc->getSubBoundingSlantBox(q.gid, j), px, py); }
+            o += "],\"mx\":[";
+            for (size_t j = 0; j < q.mx.size(); ++j) { char mb[96]; snprintf(mb, sizeof mb, "%s[%d,%ld,%ld]", j ? "," : "", q.mx[j].axis, sc(q.mx[j].vmin), sc(q.mx[j].vmax)); o += mb; }
             o += "]}";
             ++R.pairs;
             // native evaluation of the resolved clause (tolerance 1.5 units), only for the strict reading of "within reach"
